@@ -203,8 +203,8 @@ def classify_exc(exc, case, res):
         return "yaml_bigint_crash"
     if typ == "ValueError" and site == "parser/properties/schemas.py:parse_reference_path":
         return "ref_urlparse_crash"
-    if typ in ("IsADirectoryError", "FileNotFoundError", "PermissionError") and site == "__init__.py:_get_document" and case.get("path_kind") in ("dir", "missing"):
-        return "source_path_oserror"
+    # source_path_oserror (IsADirectoryError / FileNotFoundError @ __init__.py:_get_document) was repaired in /repo 1071adc: no classifier
+    # any more, a recurrence is an unlisted crash = VIOLATION; the directory / missing-file --path cases stay as regression inputs
     if typ == "OSError" and site in ("__init__.py:_build_api", "__init__.py:_build_models") and exc[3].startswith("[Errno 36]"):
         return "name_too_long_oserror"
     # const_multipart_crash (UndefinedError 'transform_multipart' @ templates/model.py.jinja) was repaired in /repo 6f2d009: no
@@ -1001,13 +1001,11 @@ def evaluate(run, cases, pure_cases, thorough, n_cli=0, replaying=False, server=
                 if what == "args":
                     kind = label.split("args-")[1]
                     if kind in ("dir", "missing"):
+                        # regression inputs of the repaired source_path_oserror: one error-level diagnostic, exit 1, nothing written
                         if cr["traceback"]:
-                            typ = cr["last"].split(":")[0]
-                            if not (typ in ("IsADirectoryError", "FileNotFoundError") and "_get_document" in cr["stderr"]
-                                    and run.known_finding("source_path_oserror", f"CLI --path to a {kind} target: uncaught {cr['last'][:120]}")):
-                                run.violation("oracle", {"what": "traceback on the CLI's stderr", "label": label, "cli": cr})
-                        elif cr["code"] != 1 or not cr["unchanged"]:
-                            run.violation("oracle", {"what": "unreadable --path: expected exit 1 and nothing written", "label": label, "cli": cr})
+                            run.violation("oracle", {"what": "traceback on the CLI's stderr (unreadable --path)", "label": label, "cli": cr})
+                        elif cr["code"] != 1 or not cr["unchanged"] or "Error(s) encountered while generating" not in cr["stderr"]:
+                            run.violation("oracle", {"what": "unreadable --path: expected one error-level diagnostic, exit 1 and nothing written", "label": label, "cli": cr})
                         continue
                     if cr["traceback"]:
                         run.violation("oracle", {"what": "traceback on the CLI's stderr", "label": label, "cli": cr})
